@@ -5,6 +5,8 @@ PROXY = "hippolyzer/lib/proxy/http_proxy.py"
 CAPS = "hippolyzer/lib/proxy/caps.py"
 REGION = "hippolyzer/lib/proxy/region.py"
 MLOG = "hippolyzer/lib/proxy/message_logger.py"
+WEBAPP = "hippolyzer/lib/proxy/webapp_cap_addon.py"
+STATE = "hippolyzer/lib/client/state.py"
 
 _FINALLY = ("        finally:\n"
             "            # If someone has taken this request out of the regular callback flow,\n"
@@ -161,6 +163,24 @@ VARIANTS = [
      "new": "                if orig_flow:\n                    orig_flow.resume()\n"},
     {"name": "P R3 except Exception", "file": PROXY, "expect": "silent",
      "old": _PUMP_EXCEPT, "new": _PUMP_EXCEPT.replace("except:", "except Exception:")},
+    # ------------------------------------------------------------------ R5
+    {"name": "R5 webapp handler bounded by wait_for, resume after it", "expect": "C15.R5",
+     "edits": [{"file": WEBAPP, "old": '    await asgiapp.serve(app, flow.flow)\n    # Send the modified flow object back to mitmproxy\n    flow.resume()\n',
+                "new": "    await asyncio.wait_for(asgiapp.serve(app, flow.flow), 30.0)\n    flow.resume()\n"},
+               {"file": WEBAPP, "old": "import abc\n", "new": "import abc\nimport asyncio\n"}]},
+    {"name": "P R5 webapp handler bounded by wait_for, resume in a finally", "expect": "silent",
+     "edits": [{"file": WEBAPP, "old": '    await asgiapp.serve(app, flow.flow)\n    # Send the modified flow object back to mitmproxy\n    flow.resume()\n',
+                "new": "    try:\n        await asyncio.wait_for(asgiapp.serve(app, flow.flow), 30.0)\n"
+                       "    finally:\n        flow.resume()\n"},
+               {"file": WEBAPP, "old": "import abc\n", "new": "import abc\nimport asyncio\n"}]},
+    {"name": "R4 second region registered on a circuit address already in use", "file": STATE, "expect": "C15.R4",
+     "old": "            if region.circuit_addr == circuit_addr:\n",
+     "new": "            if region.circuit_addr == circuit_addr:\n"
+            "                if handle and region.handle and region.handle != handle:\n                    break\n"},
+    {"name": "P R4 region reuse logged", "file": STATE, "expect": "silent",
+     "old": "            if region.circuit_addr == circuit_addr:\n",
+     "new": "            if region.circuit_addr == circuit_addr:\n"
+            "                logging.debug(\"reusing %r\" % (region,))\n"},
     # ------------------------------------------------------------------ R4
     {"name": "R4 serialize omits type", "file": CAPS, "expect": "C15.R4",
      "old": "            base_url=self.base_url,\n            type=self.type.name,\n        )", "new": "            base_url=self.base_url,\n        )"},
@@ -246,7 +266,7 @@ VARIANTS = [
      "edits": [{"file": CAPS, "old": "class CapType(enum.Enum):\n", "new": "class CapType(enum.Flag):\n"},
                {"file": REGION, "old": "        self.register_cap(name, cap_url, CapType.PROXY_ONLY)\n",
                 "new": "        self.register_cap(name, cap_url, CapType.PROXY_ONLY | CapType.TEMPORARY)\n"}]},
-    {"name": "P R4 cap types become flags used only as masks", "expect": "silent",
+    {"name": "R4 cap types become flags even if only used as masks (composite kinds become expressible)", "expect": "C15.R4",
      "edits": [{"file": CAPS, "old": "class CapType(enum.Enum):\n", "new": "class CapType(enum.Flag):\n"},
                {"file": CAPS, "old": "        return self == CapType.PROXY_ONLY or self == CapType.WRAPPER\n",
                 "new": "        return bool(self & (CapType.PROXY_ONLY | CapType.WRAPPER))\n"}]},
